@@ -51,9 +51,31 @@ type c16Req struct {
 	NRandom  int    `json:"nrandom"`
 	NPerturb int    `json:"nperturb"`
 	Shard    int    `json:"shard"`
+	Layout   int    `json:"layout"` // synthetic descriptions with gate constraints (shape ng = 2): 1 = one selector group [Noop, Constant{2}], 2 = two groups
 }
 
 func init() { drv.Register("c16", c16) }
+
+// synthGateVals are the gate constraints of the synthetic descriptions with a ConstantGate { num_consts: 2 } next to the Noop gate, computed from
+// plonky2's definition and not with the repository's evaluator: constraint k = filter * (c_{ns+k} - w_k), where ns is the number of selector
+// polynomials, filter = prod over the other rows i of the gate's group of (i - s) times (UNUSED - s) iff ns > 1, and s the gate's selector opening.
+func synthGateVals(d *plonkData, layout int) []gf.E {
+	if layout == 0 {
+		return nil
+	}
+	var filter gf.E
+	ns := layout
+	if layout == 1 { // group [0, 2), the Constant gate is row 1: the other row is 0
+		filter = gf.ESub(gf.EB(big.NewInt(0)), d.consts[0])
+	} else { // groups [0,1) and [1,2): no other row, two selector polynomials
+		filter = gf.ESub(gf.EB(new(big.Int).SetUint64(uint64(^uint32(0)))), d.consts[1])
+	}
+	out := []gf.E{}
+	for k := 0; k < 2; k++ {
+		out = append(out, gf.EMul(filter, gf.ESub(d.consts[ns+k], d.wires[k])))
+	}
+	return out
+}
 
 // plonkData is one concrete set of openings and challenges for a description.
 type plonkData struct {
@@ -236,6 +258,10 @@ func randData(cd types.CommonCircuitData, rng *rand.Rand, nConst, nWires int) *p
 func perturbOne(d *plonkData, rng *rand.Rand) string {
 	lists := map[string][]gf.E{"sigmas": d.sigmas, "wires": d.wires[:int(d.cd.Config.NumRoutedWires)], "zs": d.zs, "zsnext": d.zsnext, "pps": d.pps, "quotients": d.quotients}
 	names := []string{"sigmas", "wires", "zs", "zsnext", "pps", "quotients", "beta", "gamma", "alpha", "zeta"}
+	if len(d.cd.GateIds) == 2 { // the synthetic descriptions with a Constant gate: selector and constant openings as well
+		lists["consts"] = d.consts
+		names = append(names, "consts", "consts")
+	}
 	for {
 		n := names[rng.Intn(len(names))]
 		switch n {
@@ -355,10 +381,24 @@ func c16(raw json.RawMessage, resp *drv.Response) error {
 		cd.NumGateConstraints = 0
 		cd.GateIds = []string{"NoopGate"}
 		cd.SelectorsInfo = *gates.NewSelectorsInfo([]uint64{0}, []uint64{0}, []uint64{1})
+		nConst = 1
+		if req.Layout != 0 {
+			if s.NG != 2 {
+				return fmt.Errorf("a gate layout needs a shape with two gate constraints")
+			}
+			cd.NumGateConstraints = 2
+			cd.GateIds = []string{"NoopGate", "ConstantGate { num_consts: 2 }"}
+			if req.Layout == 1 {
+				cd.SelectorsInfo = *gates.NewSelectorsInfo([]uint64{0, 0}, []uint64{0}, []uint64{2})
+			} else {
+				cd.SelectorsInfo = *gates.NewSelectorsInfo([]uint64{0, 1}, []uint64{0, 1}, []uint64{1, 2})
+			}
+			nConst = req.Layout + 2
+		}
 		for j := 0; j < s.RW; j++ {
 			cd.KIs = append(cd.KIs, rng.Uint64()>>1)
 		}
-		nConst, nWires = 1, s.RW
+		nWires = s.RW
 	}
 	if req.Part == "degenerate" {
 		return c16Degenerate(s, cd, req, resp, rng, nConst, nWires)
@@ -381,6 +421,8 @@ func c16(raw json.RawMessage, resp *drv.Response) error {
 			if err != nil {
 				return fmt.Errorf("gate constraints: %s", firstLine(err))
 			}
+		} else {
+			gv = synthGateVals(d, req.Layout)
 		}
 		if !solveQuotient(s, d, gv) {
 			continue
@@ -388,6 +430,9 @@ func c16(raw json.RawMessage, resp *drv.Response) error {
 		key := fmt.Sprintf("%s/%s/%d/%d/%d/%d/%s", req.Part, req.Instance, s.NC, s.RW, s.QD, rep, estr(d.zeta))
 		resp.Count(key, false)
 		sig := fmt.Sprintf("nc=%d rw=%d qd=%d divisible=%v", s.NC, s.RW, s.QD, s.RW%s.QD == 0)
+		if req.Layout != 0 {
+			sig += fmt.Sprintf(" gates=noop+constant selector-groups=%d", req.Layout)
+		}
 		if got, err := vanishingRealSafe(d); err == "" {
 			env := d.env(gv)
 			for i := 0; i < s.NC; i++ {
@@ -409,6 +454,7 @@ func c16(raw json.RawMessage, resp *drv.Response) error {
 			d2.betas, d2.gammas, d2.alphas = append([]*big.Int{}, d.betas...), append([]*big.Int{}, d.gammas...), append([]*big.Int{}, d.alphas...)
 			cp := func(x []gf.E) []gf.E { return append([]gf.E{}, x...) }
 			d2.sigmas, d2.wires, d2.zs, d2.zsnext, d2.pps, d2.quotients = cp(d.sigmas), cp(d.wires), cp(d.zs), cp(d.zsnext), cp(d.pps), cp(d.quotients)
+			d2.consts = cp(d.consts)
 			what := perturbOne(&d2, rng)
 			// the reference decides whether the identity still holds after the change (an opening that is multiplied by a zero - a partial
 			// product that happens to be 0 - does not matter to it): accept exactly when it does
@@ -418,6 +464,8 @@ func c16(raw json.RawMessage, resp *drv.Response) error {
 				if gv2, err = gateConstraints(&d2); err != nil {
 					continue
 				}
+			} else {
+				gv2 = synthGateVals(&d2, req.Layout)
 			}
 			env2 := d2.env(gv2)
 			holds := true
